@@ -10,6 +10,7 @@ import Holpy.C12.Hist
 import Holpy.C12.Users
 import Holpy.C12.UsersIso
 import Holpy.C12.UsersSpec
+import Holpy.C12.UsersHist
 /-
 C12 — property theorems (statements live here, helper lemmas in Proofs / Exec / Exec2 / Complete / Reread / Edits / Hist).
 
@@ -491,6 +492,39 @@ theorem users_isolated (W : World) (fault : Option Item) (fuel : Nat) (s : State
     have h3 : (loadMetadata (s.focus B)).2.user ≠ A := by rw [h5.1, h1]; exact hAB
     obtain ⟨_, h4⟩ := fr_focus (A := A) (loadMetadata (s.focus B)).2 s.user hs h3
     rw [h4, h5.2]; exact h2
+
+/-- History-level statement for several users, for every NON-master user `u`: start a process whose caches are empty
+    (`s0`), run ANY history of loads, interrupted loads, module imports, touches, edits and metadata reloads of ANY
+    users; if the operations on u's OWN files satisfy the usual hypothesis (`okHistU`: fresh timestamps, no load for
+    `u` between an edit of the imports of one of u's files and `load_metadata(u)`) — nothing is asked of what the other
+    users do — then a `load_theory(T, limit, username=u)` that returns normally leaves the specification evaluated on
+    u's CURRENT files (lazy imports and the master loads they trigger included).
+    PARTIAL: (1) `u` = master is not covered when other users are active (master's library and cache are also
+    changed by the other users' lazy imports; its invariant is not threaded through their loads), (2) the direction
+    "the specification succeeds ⇒ the load does not raise" is proved for one user only (`load_eq_spec`). -/
+theorem load_eq_spec_users_partial (W : World) (s0 : State) (hfocus : s0.user = 0) (u : Nat) (hu : u ≠ 0)
+    (hcache : (s0.focus u).cache = none) (h : List OpU) (fuel : Nat)
+    (hok : okHistU W fuel u h s0 (used0 (s0.focus u).files) false) (f : Nat) (n : Name) (lim : Limit) :
+    let s := runU W fuel h s0
+    let r := execU W none (f + 1) (.load u n lim) s
+    r.1 = none → ∀ k, specLoad W (s.focus u).lib k n lim ≠ .error .fuel →
+      specLoad W (s.focus u).lib k n lim = .ok (r.2.thy.getD []) := by
+  intro s r hr k hk
+  have hj0 : JU W u s0 (used0 (s0.focus u).files) false := by
+    refine ⟨hfocus, fun _ => ⟨filesOk_lib _, ?_, fun k => by simp [used0]⟩, fun k => by simp [used0]⟩
+    intro T hT; rw [hcache] at hT; cases hT
+  obtain ⟨U', hj⟩ := runU_inv W fuel u hu h s0 _ false hj0 hok
+  exact user_resolution_spec W (s.focus u).lib U' s u (hj.2.1 rfl) f n lim hr k hk
+
+example :
+    let h : List OpU := [.load 1 2 .none none, .edit 0 1 [] [11] 9, .load 0 2 .none none, .touch 1 1 3,
+                         .edit 1 2 [] [120] 8, .reloadMeta 1, .load 2 2 .none (some 210)]
+    okHistU lzWorld 50 1 h uState (used0 (uState.focus 1).files) false
+    ∧ (execU lzWorld none 50 (.load 1 2 .none) (runU lzWorld 50 h uState)).2.thy = some [120]
+    ∧ specLoad lzWorld ((runU lzWorld 50 h uState).focus 1).lib 5 2 .none = .ok [120] := by
+  refine ⟨?_, by decide, by rfl⟩
+  simp only [okHistU]
+  decide
 
 /-- three users: master, 1 and 2 (user 2 has item 220 in theory 2) -/
 def uState3 : State :=
